@@ -1,8 +1,8 @@
-import Ypv.Drv.Codec
-/-! Driver handler for C02 (stub: replaced by the module that models C02) -/
+import Ypv.Drv.C01
+/-! Driver handler for C02: the evaluator model is served by the C01 handler (`C02.eval` = `C01.eval`). -/
 namespace Ypv.Drv.C02
 open Lean (Json)
 
-def handle (_op : String) (_j : Json) : Except String Json := throw "C02: driver not implemented yet"
+def handle (op : String) (j : Json) : Except String Json := Ypv.Drv.C01.handle op j
 
 end Ypv.Drv.C02
